@@ -4,6 +4,7 @@
 B="$1"; n="$2"; shift 2
 out=/tmp/${B}-out/$n; wt=/tmp/${B}-$n
 P=$(echo "$n" | tr c C)
+pre=$(echo "$B" | sed "s/ben/b/")
 here="$(cd "$(dirname "$0")/.." && pwd)"
 cd "$here"
 k=0
@@ -12,9 +13,9 @@ for slug in "$@"; do
   [ "$slug" = "-" ] && continue
   kind=$(python3 -c "import json;print(json.load(open('$out/notes.json'))['change$k'].get('kind',''))")
   what=$(python3 -c "import json;print(json.load(open('$out/notes.json'))['change$k'].get('what',''))")
-  echo "=== b2-$n-$slug"
-  tools/keep_benign.py "b2-$n-$slug" "$P" "$wt" "$out/change$k.diff" "$out/demo$k.py" --kind "$kind" --what "$what" > /tmp/keep_b.$$.log 2>&1
+  echo "=== $pre-$n-$slug"
+  tools/keep_benign.py "$pre-$n-$slug" "$P" "$wt" "$out/change$k.diff" "$out/demo$k.py" --kind "$kind" --what "$what" > /tmp/keep_b.$$.log 2>&1
   python3 -c "
-import json;m=json.load(open('benign/b2-$n-$slug/meta.json'));print('confirmed',m['confirmed_in_scratch_worktree']['ok'],'silent',m['silent'],'checks',len(m['checks_run']));print({k:v.get('mechanisms',v)[:3] for k,v in m['alarms'].items()})"
+import json;m=json.load(open('benign/$pre-$n-$slug/meta.json'));print('confirmed',m['confirmed_in_scratch_worktree']['ok'],'silent',m['silent'],'checks',len(m['checks_run']));print({k:v.get('mechanisms',v)[:3] for k,v in m['alarms'].items()})"
   rm -f /tmp/keep_b.$$.log
 done
